@@ -121,17 +121,39 @@ def read_links(path):
     return out
 
 
-class FakeNetdev(object):
+class _Faulty(object):
+    """Fault switch shared by the fakes: armed with a countdown k, the k-th
+    faultable call made while the harness holds the window open (= inside
+    on_create_request / on_delete_request) raises CalledProcessError once,
+    as the real subprocess wrappers do when `ip` / `ipset` fail."""
+
+    def __init__(self, subproc):
+        self._subproc = subproc
+        self.errors = 0      # every error answer given (injected or not)
+        self.countdown = None
+        self.window = False
+        self.fired = None
+
+    def _fault(self, name):
+        if self.window and self.countdown is not None:
+            self.countdown -= 1
+            if self.countdown <= 0:
+                self.countdown = None
+                self.fired = name
+                self.errors += 1
+                raise self._subproc.CalledProcessError(1, [name])
+
+
+class FakeNetdev(_Faulty):
     """In-memory stand-in for treadmill.netdev (kernel links + one bridge).
 
     State survives service restarts, like the kernel's.
     """
 
     def __init__(self, subproc):
-        self._subproc = subproc
+        super(FakeNetdev, self).__init__(subproc)
         self.devs = {}       # name -> {'alias', 'mtu', 'peer'}
         self.bridge = []     # device names attached to br0, in order
-        self.missing = 0     # number of ENOENT answers given
 
     def _dev(self, name):
         if name in ('br0', 'tm0', 'tm1', 'eth0'):
@@ -139,10 +161,18 @@ class FakeNetdev(object):
         try:
             return self.devs[name]
         except KeyError:
-            self.missing += 1
+            self.errors += 1
             raise IOError(errno.ENOENT, 'No such device', name)
 
-    # -- queries
+    def _cmd_dev(self, name, cmd):
+        """Device lookup of an `ip`/`brctl` command (fails with exit 1)."""
+        if name not in ('br0', 'tm0', 'tm1', 'eth0') and \
+                name not in self.devs:
+            self.errors += 1
+            raise self._subproc.CalledProcessError(1, [cmd, name])
+        return self._dev(name)
+
+    # -- queries (sysfs reads)
     def dev_mtu(self, name):
         return self._dev(name)['mtu']
 
@@ -163,12 +193,13 @@ class FakeNetdev(object):
     def bridge_brif(self, _bridge):
         return ['tm1'] + list(self.bridge)
 
-    # -- no-ops on the fixed devices
+    # -- commands
     def link_set_up(self, name):
-        self._dev(name)
+        self._fault('link_set_up')
+        self._cmd_dev(name, 'link_set_up')
 
     def link_set_down(self, name):
-        self._dev(name)
+        self._cmd_dev(name, 'link_set_down')
 
     def bridge_setfd(self, _bridge, _fd):
         pass
@@ -178,26 +209,36 @@ class FakeNetdev(object):
 
     # -- veth pairs
     def link_add_veth(self, veth0, veth1):
+        self._fault('link_add_veth')
         if veth0 in self.devs or veth1 in self.devs:
+            self.errors += 1
             raise self._subproc.CalledProcessError(
                 2, ['ip', 'link', 'add', veth0])
         self.devs[veth0] = {'alias': '', 'mtu': 1500, 'peer': veth1}
         self.devs[veth1] = {'alias': '', 'mtu': 1500, 'peer': veth0}
 
     def link_set_mtu(self, name, mtu):
-        self._dev(name)['mtu'] = mtu
+        self._fault('link_set_mtu')
+        self._cmd_dev(name, 'link_set_mtu')['mtu'] = mtu
 
     def link_set_alias(self, name, alias):
-        self._dev(name)['alias'] = alias
+        self._fault('link_set_alias')
+        self._cmd_dev(name, 'link_set_alias')['alias'] = alias
 
     def bridge_addif(self, _bridge, name):
-        self._dev(name)
+        self._fault('bridge_addif')
+        self._cmd_dev(name, 'bridge_addif')
         if name not in self.bridge:
             self.bridge.append(name)
 
     def link_del_veth(self, name):
+        self._fault('link_del_veth')
+        self._remove(name)
+
+    def _remove(self, name):
         dev = self.devs.pop(name, None)
         if dev is None:
+            self.errors += 1
             raise self._subproc.CalledProcessError(
                 1, ['ip', 'link', 'delete', name])
         self.devs.pop(dev['peer'], None)
@@ -208,15 +249,16 @@ class FakeNetdev(object):
     # -- harness side: the kernel destroys the pair with the container netns
     def vanish(self, veth0):
         if veth0 in self.devs:
-            self.link_del_veth(veth0)
+            self._remove(veth0)
             return True
         return False
 
 
-class FakeIptables(object):
+class FakeIptables(_Faulty):
     """In-memory stand-in for the ipset calls of treadmill.iptables."""
 
-    def __init__(self, real):
+    def __init__(self, real, subproc):
+        super(FakeIptables, self).__init__(subproc)
         self.SET_NONPROD_CONTAINERS = real.SET_NONPROD_CONTAINERS
         self.SET_PROD_CONTAINERS = real.SET_PROD_CONTAINERS
         self.sets = {}
@@ -228,13 +270,19 @@ class FakeIptables(object):
         self.sets[target_set] = set(content)
 
     def add_ip_set(self, target_set, add_ip):
+        self._fault('add_ip_set')
         self.sets[target_set].add(add_ip)
 
     def rm_ip_set(self, target_set, del_ip):
+        self._fault('rm_ip_set')
         self.sets[target_set].discard(del_ip)
 
     def test_ip_set(self, target_set, test_ip):
-        return test_ip in self.sets[target_set]
+        # (`ipset test` runs with use_except=False: it never raises)
+        found = test_ip in self.sets[target_set]
+        if found:
+            self.errors += 1     # the caller is about to refuse the IP
+        return found
 
 
 # --------------------------------------------------------------------------
@@ -304,6 +352,10 @@ class Engine(object):
         self.svc = None                  # running implementation object
         self.svc_started = False
         self.svc_req = {}                # unique name -> env (request links)
+        self.svc_loose = set()           # held IPs the holder is not (or no
+                                         # longer) entitled to, see _svc_create
+        self.svc_done = set()            # owners whose delete failed
+        self._windows = 0
         self.svc_net = ipaddress.IPv4Network(
             self.cfg.get('svc_cidr') or '192.168.0.0/16')
         self._svc_hosts = None
@@ -447,6 +499,10 @@ class Engine(object):
             if op.get('veth') and self.netdev is not None:
                 if self.netdev.vanish(veth_names(cur)[0]):
                     self.count('own.down.veth-vanished')
+                    # its network namespace is gone: it no longer uses
+                    # the address, the service may keep or reclaim it
+                    self.svc_loose.update(
+                        self._svc_holding(self.model['svc'], cur))
         self._unchanged('own')
 
     def _unchanged(self, acting):
@@ -799,7 +855,7 @@ class Engine(object):
             self._patched = (network_service, network_service.netdev,
                              network_service.iptables)
             self.netdev = FakeNetdev(subproc)
-            self.ipt = FakeIptables(iptables)
+            self.ipt = FakeIptables(iptables, subproc)
             network_service.netdev = self.netdev
             network_service.iptables = self.ipt
             self._svc_mod = network_service
@@ -825,20 +881,67 @@ class Engine(object):
     def _svc_holding(vips, owner):
         return sorted(ip for ip, own in vips.items() if own == owner)
 
-    def _svc_create(self, owner, env, expected, phase):
-        """One on_create_request as _base_service._on_created issues it."""
-        held = self._svc_holding(expected, owner)
-        full = self._svc_full(expected)
-        missing0 = self.netdev.missing
+    # -- faults -----------------------------------------------------------
+    def _svc_fault(self, op):
+        """Arm one fake: the k-th faultable call inside the handlers of the
+        next service op raises CalledProcessError once."""
+        self._svc_boot()
+        fake = self.ipt if op['on'] == 'ipt' else self.netdev
+        self.ipt.countdown = self.netdev.countdown = None
+        fake.countdown = max(1, op['k'])
+        self.count('fault.armed.%s' % op['on'])
+        self._unchanged('svc')
+
+    def _errors(self):
+        return self.netdev.errors + self.ipt.errors
+
+    def _handler(self, call, *args):
+        """Run one request handler with the fault window open."""
+        self._windows += 1
+        self.netdev.window = self.ipt.window = True
         try:
-            reply = self.svc.on_create_request(owner, {'environment': env})
+            return call(*args)
+        finally:
+            self.netdev.window = self.ipt.window = False
+
+    def _svc_op_done(self):
+        """End of a service op: a fault armed for it is spent."""
+        if self._windows:
+            self._windows = 0
+            for kind, fake in (('net', self.netdev), ('ipt', self.ipt)):
+                if fake.fired:
+                    self.count('fault.fired.%s.%s' % (kind, fake.fired))
+                    self.flags['fault'] = True
+                    fake.fired = None
+                elif fake.countdown is not None:
+                    self.count('fault.not-reached.%s' % kind)
+                fake.countdown = None
+        self.svc_loose &= set(self.model['svc'])
+
+    def _svc_create(self, owner, env, expected, phase):
+        """One on_create_request as _base_service._on_created issues it
+        (any exception becomes an error reply, the service goes on).
+
+        Model.  A successful reply *grants* its address: the owner keeps
+        it until it deletes the request or disappears.  An address that is
+        linked to an owner without being granted is *loose*: left behind by
+        a create that failed half-way (the owner never saw it), by a delete
+        that failed half-way, or the owner's veth pair is gone.  Loose
+        addresses still exclude every other owner, but the service may
+        reclaim them in synchronize."""
+        held = self._svc_holding(expected, owner)
+        granted = [ip for ip in held if ip not in self.svc_loose]
+        full = self._svc_full(expected)
+        errors0 = self._errors()
+        try:
+            reply = self._handler(self.svc.on_create_request, owner,
+                                  {'environment': env})
         except Exception as err:  # pylint: disable=broad-except
-            # _on_created turns any exception into an '_error' reply
-            if self.netdev.missing > missing0:
-                # the (fake) kernel lost the device of a known request;
-                # not an ownership matter
-                self.count('svc.create.failed-no-device')
-            elif not held and full:
+            if self._errors() > errors0:
+                # a device / ipset command failed (injected, or the kernel
+                # state left by an earlier failure): not an ownership matter
+                self.count('svc.create.failed-command')
+            elif not granted and full:
                 self.count('svc.create.exhausted')
                 self._contended('svc', 'exhausted')
             else:
@@ -848,15 +951,31 @@ class Engine(object):
                     'network %s, vips %r' % (phase, owner, err, held,
                                              self.svc_net,
                                              sorted(expected)))
+            # half-way: it may have linked one new address to this owner
+            fresh = [
+                ip for ip, target in sorted(
+                    read_links(self.dirs['svc']).items())
+                if ip not in expected and target is not None and
+                os.path.basename(target) == owner and
+                ipaddress.ip_address(ip) in self.svc_net
+            ]
+            if len(fresh) == 1:
+                expected[fresh[0]] = owner
+                self.svc_loose.add(fresh[0])
+                self.count('svc.create.failed-holding-address')
             return
         vip = reply['vip']
-        if held:
-            if vip != held[0]:
+        if granted:
+            if vip != granted[0]:
                 raise Violation(
                     'c14.svc.create.repeat-changed-ip',
-                    '%s: repeated request of %r got %r, it holds %r'
-                    % (phase, owner, vip, held))
+                    '%s: repeated request of %r got %r, it was granted %r'
+                    % (phase, owner, vip, granted))
             self.count('svc.create.repeat')
+            return
+        if vip in held:
+            self.svc_loose.discard(vip)
+            self.count('svc.create.granted-loose')
             return
         if vip in expected:
             raise Violation(
@@ -901,9 +1020,20 @@ class Engine(object):
         elif stale:
             self.count('gc.svc.uniform')
         impl.synchronize()
-        expected = {ip: own for ip, own in expected.items() if own in valid}
-        self.check_all('svc', 'sync', expected,
+        # granted addresses of valid requests stay, addresses without a
+        # valid request go, loose addresses of valid requests: either
+        after = read_links(self.dirs['svc'])
+        final = {}
+        for addr, own in expected.items():
+            if own not in valid:
+                continue
+            if addr in self.svc_loose and addr not in after:
+                self.count('svc.sync.loose-reclaimed')
+                continue
+            final[addr] = own
+        self.check_all('svc', 'sync', final,
                        {'missing': 'reclaimed-live', 'extra': 'kept-stale'})
+        self._svc_op_done()
 
     def _svc_req(self, op):
         self._svc_boot()
@@ -919,6 +1049,12 @@ class Engine(object):
             self.count('svc.req.skipped-no-container')
             self._unchanged('svc')
             return
+        if owner in self.svc_done:
+            # its delete came back with an error: the container is being
+            # torn down, it does not ask again under this name
+            self.count('svc.req.skipped-after-failed-delete')
+            self._unchanged('svc')
+            return
         link = os.path.join(self.svc_rsrc, owner)
         if not os.path.lexists(link):
             # ResourceService.clt_new_request
@@ -932,6 +1068,7 @@ class Engine(object):
         self.check_all('svc', 'create', expected,
                        {'changed': 'double-owner'})
         self._svc_devices_distinct(owner)
+        self._svc_op_done()
 
     def _svc_devices_distinct(self, _owner=None):
         """No two entries of the reported service state share an IP."""
@@ -968,15 +1105,33 @@ class Engine(object):
         if self.svc is None:
             self.count('svc.del.while-down')
         else:
-            self.svc.on_delete_request(owner)
+            errors0 = self._errors()
+            failed = False
+            try:
+                self._handler(self.svc.on_delete_request, owner)
+            except Exception:  # pylint: disable=broad-except
+                # _on_deleted logs it and goes on
+                if self._errors() == errors0:
+                    raise
+                failed = True
+                self.svc_done.add(owner)
+                self.count('svc.del.failed-command')
+            after = read_links(self.dirs['svc'])
             for addr in self._svc_holding(expected, owner):
-                del expected[addr]
+                if addr not in self.svc_loose and not failed:
+                    del expected[addr]       # the granted address is freed
+                elif addr in after:
+                    self.svc_loose.add(addr)  # left behind until collected
+                    self.count('svc.del.left-loose')
+                else:
+                    del expected[addr]
             self.count('svc.del.live-owner' if owner in self.live
                        else 'svc.del.dead-owner')
         self.check_all('svc', 'delete', expected,
                        {'missing': 'released-foreign',
                         'extra': 'release-ignored'})
         self._svc_devices_distinct(owner)
+        self._svc_op_done()
 
     def _svc_stop(self, _op):
         self._svc_boot()
